@@ -1,5 +1,6 @@
 #!/bin/bash
 # usage: mut.sh ID file 'python-regex-old' 'new'  — applies a one-off textual mutation to /repo, runs check quick, reverts.
+if [ -n "$(git -C /repo status --porcelain)" ]; then echo "REFUSING: /repo has uncommitted changes (this script reverts the working tree)"; exit 9; fi
 ID=$1; F=$2; OLD=$3; NEW=$4
 cd /repo || exit 2
 python3 - "$F" "$OLD" "$NEW" <<'PY' || exit 3
